@@ -1,4 +1,5 @@
 import Driver.Lapper
+import Driver.Rec
 /-!
 `bvdriver FILE` (or stdin): one case per line, answers one verdict line per case.
 -/
@@ -15,6 +16,10 @@ def handle (line : String) : String :=
       | "C16" => handleC16 inp obs
       | "C17" => handleC17 inp obs
       | "C11" => handleC11 inp obs
+      | "C13" => handleC13 inp obs
+      | "C14" => handleC14 inp obs
+      | "C07" => handleC07 inp obs
+      | "C08" => handleC08 inp obs
       | _ => { kind := "badcase", detail := s!"unknown property {prop}" }
     v.render id
   | _ => "? badcase 0 - | empty line"
